@@ -27,6 +27,7 @@ func c03Gen(t *rapid.T, r *h.Rec) execCase {
 	o.Unions = 1
 	o.EnumStress = true
 	o.EmbedNamed = true
+	o.SameNamePromoted = true
 	return execCase{Spec: synth.GenTypes(t, o), Seed: int64(rapid.IntRange(1, 1<<30).Draw(t, "childSeed")), Checks: childChecks(25, 80)}
 }
 
